@@ -29,14 +29,24 @@ func (dk DependencyKeys) MarshalJSON() ([]byte, error) {
 	if len(dk.Labels) > 0 {
 		sk.Labels = dk.Labels
 		sort.SliceStable(sk.Labels, func(i, j int) bool {
-			return sk.Labels[i].Index < sk.Labels[j].Index
+			if sk.Labels[i].Index != sk.Labels[j].Index {
+				return sk.Labels[i].Index < sk.Labels[j].Index
+			}
+			return sk.Labels[i].Value < sk.Labels[j].Value
 		})
 	}
 
 	if len(dk.Attributes) > 0 {
 		sk.Attributes = dk.Attributes
 		sort.SliceStable(sk.Attributes, func(i, j int) bool {
-			return sk.Attributes[i].Name < sk.Attributes[j].Name
+			if sk.Attributes[i].Name != sk.Attributes[j].Name {
+				return sk.Attributes[i].Name < sk.Attributes[j].Name
+			}
+			// same name listed twice: order by value, so that the key does
+			// not depend on the listing order
+			vi, _ := sk.Attributes[i].Expr.MarshalJSON()
+			vj, _ := sk.Attributes[j].Expr.MarshalJSON()
+			return string(vi) < string(vj)
 		})
 	}
 
